@@ -33,9 +33,9 @@ ASSUMPTIONS = [
     'round), never on RSS or elapsed time',
 ]
 FLOORS = {'schedules': 200, 'evaluate_outcomes': 2000, 'snapshots': 50,
-          'growth_windows': 4, 'dependent_order_pairs': 50,
+          'growth_windows': 20, 'dependent_order_pairs': 50,
           'derived_models': 20, 'own_namespace_evaluators': 20,
-          'evaluations_after_reassignment': 500}
+          'evaluations_after_reassignment': 500, 'long_chain_outcomes': 48}
 ANCHOR_FUNCS = {
     'xlcalculator/evaluator.py': ['Evaluator.evaluate',
                                   'EvaluatorContext.eval_cell'],
@@ -370,8 +370,71 @@ def run(ctx):
                         'schedules': len(perms), 'evaluators': n_ev,
                         'values': {build.addr(k): want[k] for k in formulas}})
 
+    # ---- long chains: the outcome of a cell (its value, or the failure once the
+    # interpreter's stack is exhausted) is the same whatever was evaluated
+    # before it and whichever evaluator is asked ------------------------------
+    if ctx.shard in (1, 2, 3) or thorough:
+        import sys
+        limit_before = sys.getrecursionlimit()
+        cells = {}
+        heads = []
+        for col, (style, n_) in enumerate([('plain', 100), ('plain', 180),
+                                           ('plain', 300), ('plain', 600),
+                                           ('if', 60), ('if', 100),
+                                           ('if', 200), ('if', 320)]):
+            c = ref.col_letters(col + 1)
+            cells[f'{c}{n_ + 1}'] = 1
+            for k in range(1, n_ + 1):
+                nxt = f'{c}{k + 1}'
+                cells[f'{c}{k}'] = f'={nxt}+1' if style == 'plain' else \
+                    f'=IF({nxt}>0,{nxt}+1,0)'
+            heads.append((f'Sheet1!{c}1', style, n_))
+        try:
+            model = subject.compile_dict(cells)
+        except RecursionError:
+            model = None
+        if model is not None:
+            evs = [Evaluator(model), Evaluator(model)]
+            seen = {}
+            for rnd in range(3):
+                order = list(heads)
+                rng.shuffle(order)
+                for a, style, n_ in order:
+                    got = subject.outcome_of(
+                        lambda: rng.choice(evs).evaluate(a))
+                    kind = got if got[0] == 'value' else (
+                        'raised', 'recursion' if 'recursion' in got[1].lower()
+                        else got[1][:80])
+                    ctx.event('evaluate_outcomes')
+                    ctx.event('long_chain_outcomes')
+                    seen.setdefault((a, style, n_), []).append(
+                        (rnd, [x[0] for x in order].index(a), kind))
+            for (a, style, n_), obs in seen.items():
+                kinds = {k for _, _, k in obs}
+                ctx.case(('long-chain', style, n_, len(kinds)))
+                if len(kinds) > 1:
+                    ctx.fail(f'{a} (chain of {n_} cells linked by {style}) '
+                             f'depends on what was evaluated before: '
+                             f'(round, position, outcome) = {obs}',
+                             {'chain': [style, n_], 'observations': obs},
+                             monitor='schedule-independence',
+                             group=f'long-chain:{style}')
+                elif kinds == {('value', ('num', float(n_ + 1)))}:
+                    pass
+                elif next(iter(kinds))[0] == 'value':
+                    ctx.fail(f'{a} (chain of {n_} cells) evaluates to '
+                             f'{kinds}, expected {n_ + 1}',
+                             {'chain': [style, n_]},
+                             monitor='schedule-independence',
+                             group='long-chain-value')
+            if sys.getrecursionlimit() != limit_before:
+                # (not judged by itself: only outcomes that differ are)
+                ctx.note(f'recursion limit changed from {limit_before} to '
+                         f'{sys.getrecursionlimit()} during evaluation')
+                sys.setrecursionlimit(limit_before)
+
     # ---- growth -------------------------------------------------------------
-    if ctx.shard < (6 if thorough else 2):
+    if True:
         shapes = [
             ('chain', {'A1': 1, 'B1': '=A1+1', 'C1': '=B1*2', 'D1': '=C1-A1'}),
             ('range', {'A1': 1, 'A2': 2, 'A3': 3, 'B1': '=SUM(A1:A3)',
@@ -382,8 +445,26 @@ def run(ctx):
                            'Sheet1!B1': '=Data!A1*2'}),
             ('text', {'A1': 'ab', 'B1': '=A1&"c"', 'C1': '=LEN(B1)'}),
             ('error', {'A1': 0, 'B1': '=1/A1', 'C1': '=ISERROR(B1)'}),
+            # error values that travel: inside a range given to an
+            # aggregate, through IF/AND, as a literal in the formula
+            ('error-in-range', {'A1': 0, 'B1': '=1/A1', 'B2': 2,
+                                'C1': '=SUM(B1:B2)', 'C2': '=MAX(B1:B2)',
+                                'C3': '=SUM(B1,B2)'}),
+            ('error-literal', {'A1': 1, 'B1': '=IF(A1>5,A1,#N/A)',
+                               'C1': '=SUM(B1,2,1)', 'C2': '=IF(B1,1,2)',
+                               'C3': '=AND(A1,B1)'}),
+            ('error-through-logic', {'A1': 0, 'B1': '=IF(1/A1,1,2)',
+                                     'C1': '=NOT(B1)', 'C2': '=OR(A1,B1)',
+                                     'C3': '=B1&"x"'}),
+            ('lookup', {'A1': 1, 'A2': 2, 'A3': 3, 'B1': 'x', 'B2': 'y',
+                        'B3': 'z', 'C1': '=VLOOKUP(2,A1:B3,2,FALSE)',
+                        'C2': '=MATCH(9,A1:A3,0)',
+                        'C3': '=COUNTIF(A1:A3,">1")'}),
+            ('dates', {'A1': 43831, 'B1': '=YEAR(A1)', 'B2': '=EDATE(A1,1)',
+                       'B3': '=DATE(2020,1,31)-A1'}),
         ]
-        label, cells = shapes[ctx.shard % len(shapes)]
-        model = subject.compile_dict(cells)
-        addrs = [a if '!' in a else 'Sheet1!' + a for a in cells]
-        leak_run(ctx, model, addrs, 20000 if thorough else 1500, label)
+        if ctx.shard < len(shapes):
+            label, cells = shapes[ctx.shard]
+            model = subject.compile_dict(cells)
+            addrs = [a if '!' in a else 'Sheet1!' + a for a in cells]
+            leak_run(ctx, model, addrs, 20000 if thorough else 1500, label)
